@@ -75,12 +75,27 @@ class Entropy(object):
         self.buffers[actor] = buf[n:]
         return buf[:n]
 
+    lazy_init_stream = False     # C19: entropy drawn while a curve is being loaded comes from its own stream
+
+    def _in_lazy_init(self):
+        f = sys._getframe(2)
+        depth = 0
+        while f is not None and depth < 25:
+            co = f.f_code
+            if co.co_name == "load" and co.co_filename.endswith("_point.py"):
+                return True
+            f = f.f_back
+            depth += 1
+        return False
+
     def __call__(self, n):
         self.reads += 1
         self.bytes_read += n
         if self.log is not None:
             self.log.append((self.actor(), n))
         if self.mode == "stream":
+            if self.lazy_init_stream and self._in_lazy_init():
+                return self._stream_read(-1, n)
             return self._stream_read(self.actor(), n)
         if self.mode == "tape":
             avail = len(self.tape) - self.pos
@@ -208,6 +223,11 @@ def install(build=None, proxy_native=True):
     lib = os.path.join(build, "lib")
     sys.path.insert(0, lib)
     os.urandom = entropy
+    if os.environ.get("VSIM_VARIANT") == "inst" or os.environ.get("VSIM_SIM_LOCKS"):
+        # locks created by Crypto modules at import become cooperative (removed again by preimport_all)
+        from . import sched as _sched
+        _sched.install_lock_seam()
+        _state["lock_seam"] = True
     import Crypto
     if not os.path.abspath(Crypto.__file__).startswith(os.path.abspath(lib) + os.sep):
         raise RuntimeError("Crypto imported from %s, not from the scratch build %s" % (Crypto.__file__, lib))
@@ -264,6 +284,10 @@ def preimport_all():
         except Exception:
             pass
     ALL_MODULES = ok
+    if _state.get("lock_seam"):
+        from . import sched as _sched
+        _sched.remove_lock_seam()
+        _state["lock_seam"] = False
     return ok
 
 
